@@ -28,6 +28,7 @@ fn main() {
         "C11" => c11::run(&tier),
         "C12" => c12::run(&tier),
         "C13" => c13::run(&tier),
+        "C14" => c14::run(&tier),
         _ => {
             eprintln!("unknown property {}", id);
             2
